@@ -192,7 +192,12 @@ class World:
         elif name == "Structure.raise_pins":
             m, st = everywhere()
             before = self.fingerprints()
-            st.raise_pins()
+            if c % 3 == 0:
+                st.raise_pins()
+            elif c % 3 == 1:
+                st.raise_pins([list(m.pin_dic)[0]], [L.Pin(f"rp{c}")])          # explicit pins, renamed at the top
+            else:
+                st.raise_pins([p.name for p in m.pin_dic], [f"rq{c}a", f"rq{c}b"])   # by names
         elif name == "connect":
             ma, mb = two_port(), two_port()
             a = L.Structure(model=ma)
